@@ -179,6 +179,13 @@ def run(ctx, chk):
                     an.is_call(evs[0][1][1], re.compile(r"^seq::slice::SeqSlice::<A>::iter$|into_iter$"), (("seqview", P(1)),))
             chk.ob("S-conv", "From<Kmer> for Seq", ok, "must collect the k-mer's symbols in order (with_capacity; extend(kmer.iter())): " + got, b["span"])
             rows += 1
+    import core
+    for cfg in ctx.configs():
+        chk.cfg = cfg.name
+        # "identical to the overlapping-windows iterator of width K": the other side of the equation is C11's windows rows;
+        # what a handed-out slice denotes is C03's
+        core.import_rows(chk, cfg, "C11", "props.C11", ("G04", "G05c/windows", "I-override"))
+        core.import_rows(chk, cfg, "C03", "props.C03", ("R-index", "S-len"))
     chk.floor("k-mer rows over all configurations", rows, 6 * len(chk.configs))
 
 
